@@ -11,7 +11,7 @@ Decided clauses (DESIGN.md §5 C20):
 import mir
 import rules
 from mir import op_local, op_const
-from runner import AnchorMissing
+from core import AnchorMissing
 
 ENTRY = "mscript::clean_command"
 
